@@ -13,9 +13,10 @@ suite=$(go test -vet=off -count=1 ./internal/config ./internal/corerad ./interna
 ns=$(go test -vet=off -count=1 ./internal/netstate 2>&1 | grep "^--- FAIL" | grep -vc TestIntegrationWatcherWatch)
 mv /tmp/demo_$id.go $demofile
 with=$(bash -c "$demo" 2>&1 | tail -1)
-git stash -q
+# (git stash is shared between worktrees: reverse-apply the patch instead)
+git apply -R patch.diff
 without=$(bash -c "$demo" 2>&1 | tail -1)
-git stash pop -q
+git apply patch.diff
 echo "suite_failures=$suite netstate_unexpected=$ns"
 echo "with change:    $with"
 echo "without change: $without"
